@@ -2,7 +2,7 @@
    Property theorems only; the model is Bac.Net (no proofs), the proofs live in Bac.NetFacts.
    Local theorems hold for EVERY node state, adapter, and arriving frame of the model.  `Fwd` marks the copies made
    by the forwarding section of process_npdu (netservice.py:607-676), `Tx` every other frame a node emits. *)
-From Bac Require Import Base Net NetFacts NetTerm NetTerm2 NetReply NetOnce NetRoute NetArrive NetLocal NetBcast.
+From Bac Require Import Base Net NetFacts NetTerm NetTerm2 NetReply NetOnce NetRoute NetArrive NetLocal NetBcast NetTree NetFlood NetRound NetCert NetLbc NetAnn.
 Open Scope N_scope.
 
 (* each router hop lowers the hop count by exactly one, and keeps payload and message type *)
@@ -305,6 +305,156 @@ Theorem C06_tree_remote_broadcast_once_partial : forall lns ns f hs,
 Proof. exact bcast_route_arrives. Qed.
 Print Assumptions C06_tree_remote_broadcast_once_partial.
 
+(* ================= loop-free internetworks with warm caches =================
+   `internet_ok`: the LAN member lists and the nodes' ports agree, link addresses are distinct on each LAN, no node
+   has two ports on one LAN, every node is a router (>= 2 ports on different LANs, every port bound with number and
+   address, no application) or a station (one port, told nothing / its address / network and address, application).
+   `tree_to d lv up par`: loop-free as seen from network d — every LAN has a level lv (router hops to d, lv d = 0),
+   every router has exactly one port `up` towards d and its other ports are on LANs one level further away, every
+   LAN other than d has a router port `par` that leads towards d — and warm towards d: every router not attached
+   to d has as its path to d exactly (up port, address of the par port of its up-network).  (A connected bipartite
+   graph of LANs and routers is a tree iff it has such a level structure; that equivalence is not formalised.) *)
+
+(* C06_tree_unicast_once: on a loop-free internetwork with warm caches a unicast from a station on network s to
+   station (d, dm) ends with an empty queue, stays quiet for ever, and exactly one PDU was handed up: the unchanged
+   payload, at the addressed station, showing the originator's network and address.  Any cache contents about other
+   networks, any parked packets elsewhere. *)
+Theorem C06_tree_unicast_once : forall w d lv up par src ws s smac a_s tgt wt dm a_t data mR,
+  internet_ok (lans w) (nodes w) -> tree_to (lans w) (nodes w) d lv up par ->
+  queue w = [] ->
+  In (tgt, 0%nat) (lan_members (lans w) d) -> nth_error (nodes w) tgt = Some wt ->
+  w_ports wt = [(d, dm)] -> adapters (w_node wt) = [a_t] -> (a_net a_t = None \/ a_net a_t = Some d) ->
+  has_app (w_node wt) = true ->
+  nth_error (nodes w) src = Some ws -> w_ports ws = [(s, smac)] -> adapters (w_node ws) = [a_s] ->
+  (a_net a_s = None \/ a_net a_s = Some s) ->
+  (0 < lv s <= 255)%nat ->
+  pending_get (pending (w_node ws)) d = None ->
+  port_mac (nodes w) (par s) = Some mR -> cache_get (rcache (w_node ws)) (a_net a_s) d = Some mR ->
+  apdu_ok data = true ->
+  let w0 := submit w src (ARS d dm) data in
+  exists k osn, queue (run k w0) = [] /\ (forall k', (k <= k')%nat -> run k' w0 = run k w0) /\
+                trace (run k w0) = osn ++ trace w /\ oups osn = [OUp tgt (ARS s smac) (ALS dm) data].
+Proof. exact tree_unicast_once. Qed.
+Print Assumptions C06_tree_unicast_once.
+
+(* C06_tree_remote_broadcast_once: the nodes handed the payload are exactly the nodes with an application on the
+   target network — its stations — each once (hearers lists them in reverse LAN order) *)
+Theorem C06_tree_remote_broadcast_once : forall w d lv up par src ws s smac a_s data mR,
+  internet_ok (lans w) (nodes w) -> tree_to (lans w) (nodes w) d lv up par ->
+  queue w = [] ->
+  nth_error (nodes w) src = Some ws -> w_ports ws = [(s, smac)] -> adapters (w_node ws) = [a_s] ->
+  (a_net a_s = None \/ a_net a_s = Some s) ->
+  (0 < lv s <= 255)%nat ->
+  pending_get (pending (w_node ws)) d = None ->
+  port_mac (nodes w) (par s) = Some mR -> cache_get (rcache (w_node ws)) (a_net a_s) d = Some mR ->
+  apdu_ok data = true ->
+  let w0 := submit w src (ARB d) data in
+  exists k osn, queue (run k w0) = [] /\ (forall k', (k <= k')%nat -> run k' w0 = run k w0) /\
+                trace (run k w0) = osn ++ trace w /\
+                hearers osn = rev (map fst (filter (appb (nodes w)) (lan_members (lans w) d))).
+Proof. exact tree_remote_broadcast_once. Qed.
+Print Assumptions C06_tree_remote_broadcast_once.
+
+(* C06_tree_global_broadcast_once.  `tree_from s lv up par`: loop-free as seen from the source network s — levels
+   (lv s = 0, every inhabited LAN has lv < 255 and lv L = 0 only for s), one up-port per router with its other
+   ports one level further out, and on every LAN other than s exactly one down-port, `par` (tf_unique).  No
+   hypothesis on caches or parked packets.  A global broadcast from a station on s ends with an empty queue, stays
+   quiet for ever, and the nodes handed the payload are exactly the stations of the whole internetwork other than
+   the originator, each exactly once (NoDup).  Proof: the frames in flight are always the copies ff L for a
+   duplicate-free list of LANs closed under "child network of a served LAN" (invariant Inv, NetFlood.v); quiescence
+   by C06_global_broadcast_terminates; every inhabited LAN is served by induction on its level. *)
+Theorem C06_tree_global_broadcast_once : forall w s lv up par src ws smac data,
+  internet_ok (lans w) (nodes w) -> tree_from (lans w) (nodes w) s lv up par -> queue w = [] ->
+  nth_error (nodes w) src = Some ws -> w_ports ws = [(s, smac)] -> station_shape ws -> apdu_ok data = true ->
+  let w0 := submit w src AGB data in
+  exists k osn, queue (run k w0) = [] /\ (forall k', (k <= k')%nat -> run k' w0 = run k w0) /\
+    trace (run k w0) = osn ++ trace w /\ NoDup (hearers osn) /\
+    forall who, In who (hearers osn) <->
+                (who <> src /\ exists wn, nth_error (nodes w) who = Some wn /\ station_shape wn).
+Proof. exact tree_global_broadcast_once. Qed.
+Print Assumptions C06_tree_global_broadcast_once.
+
+(* C06_reply_routable, all hops: on a loop-free internetwork that is warm towards d (tree_to) and in which NOBODY
+   knows anything about network s beforehand, a unicast from station A on s to station B = (d, dm) is delivered
+   exactly once at B showing (s, smac), and B's reply to the source shown is then delivered exactly once at A,
+   showing (d, dm), after which the internetwork is quiet for ever: every router on the way has learned the way
+   back from the SADR of the request (learned_path_back), and B has learned the last router.  (With caches that
+   already hold entries about s the statement needs those entries to be correct; the cold case is the one in
+   which reply routability rests on the source address shown alone.) *)
+Theorem C06_reply_routable : forall w d lv up par srcn ws s smac a_s tgt wt dm a_t data rdata mR,
+  internet_ok (lans w) (nodes w) -> tree_to (lans w) (nodes w) d lv up par -> queue w = [] ->
+  nth_error (nodes w) srcn = Some ws -> w_ports ws = [(s, smac)] -> adapters (w_node ws) = [a_s] ->
+  (a_net a_s = None \/ a_net a_s = Some s) -> has_app (w_node ws) = true ->
+  In (tgt, 0%nat) (lan_members (lans w) d) -> nth_error (nodes w) tgt = Some wt ->
+  w_ports wt = [(d, dm)] -> adapters (w_node wt) = [a_t] -> (a_net a_t = None \/ a_net a_t = Some d) ->
+  has_app (w_node wt) = true ->
+  (0 < lv s <= 255)%nat ->
+  pending_get (pending (w_node ws)) d = None -> pending_get (pending (w_node wt)) s = None ->
+  port_mac (nodes w) (par s) = Some mR -> cache_get (rcache (w_node ws)) (a_net a_s) d = Some mR ->
+  apdu_ok data = true -> apdu_ok rdata = true ->
+  (forall who wn, nth_error (nodes w) who = Some wn -> forall x, cache_get (rcache (w_node wn)) x s = None) ->
+  let w0 := submit w srcn (ARS d dm) data in
+  exists k1 osn1,
+    queue (run k1 w0) = [] /\ trace (run k1 w0) = osn1 ++ trace w /\
+    oups osn1 = [OUp tgt (ARS s smac) (ALS dm) data] /\
+    let w2 := submit (run k1 w0) tgt (ARS s smac) rdata in
+    exists k2 osn2,
+      queue (run k2 w2) = [] /\ (forall k', (k2 <= k')%nat -> run k' w2 = run k2 w2) /\
+      trace (run k2 w2) = osn2 ++ trace (run k1 w0) /\
+      oups osn2 = [OUp srcn (ARS d dm) (ALS smac) rdata].
+Proof. exact tree_reply_routable. Qed.
+Print Assumptions C06_reply_routable.
+
+(* the hypotheses of the tree theorems are decidable: boolean checkers with soundness.  The check evaluates them
+   inside Coq on the model worlds of the random trees it simulates (case kind `tree-cert`: levels, up-ports and
+   parent ports computed by the harness by breadth-first search, caches installed as in the warm scenarios), so
+   the tree theorems apply to those concrete internetworks, whose complete traces are in turn compared with the
+   implementation. *)
+Theorem C06_certificate_checkers_sound : forall lns ns, internet_okb lns ns = true ->
+  internet_ok lns ns /\
+  (forall d lv up par, tree_tob lns ns d lv up par = true -> tree_to lns ns d lv up par) /\
+  (forall s lv up par, tree_fromb lns ns s lv up par = true -> tree_from lns ns s lv up par).
+Proof. exact checkers_sound. Qed.
+Print Assumptions C06_certificate_checkers_sound.
+
+(* tree_to is exactly "loop-free seen from d" (tree_from, which adds uniqueness of the parent port) together with
+   "warm towards d" (every router not attached to d routes d through its up-port to the parent port of its
+   up-network) *)
+Theorem C06_loop_free_warm_is_tree_to : forall lns ns d lv up par,
+  tree_from lns ns d lv up par -> warm_to ns d lv up par -> tree_to lns ns d lv up par.
+Proof. exact loop_free_warm_tree_to. Qed.
+Print Assumptions C06_loop_free_warm_is_tree_to.
+
+(* C06 local broadcast, in full and on EVERY internetwork (no tree needed): it is gone after one step with nothing
+   new in flight (it stays on its network), and the nodes handed the payload are exactly the other stations of
+   that network, each once *)
+Theorem C06_local_broadcast_once : forall w src ws s smac data,
+  internet_ok (lans w) (nodes w) -> queue w = [] ->
+  nth_error (nodes w) src = Some ws -> w_ports ws = [(s, smac)] -> station_shape ws -> apdu_ok data = true ->
+  let w0 := submit w src ALB data in
+  exists osn, queue (run 1 w0) = [] /\ (forall k', (1 <= k')%nat -> run k' w0 = run 1 w0) /\
+    trace (run 1 w0) = osn ++ trace w /\ NoDup (hearers osn) /\
+    forall who, In who (hearers osn) <->
+      (who <> src /\ exists wn m, nth_error (nodes w) who = Some wn /\ station_shape wn /\ w_ports wn = [(s, m)]).
+Proof. exact local_broadcast_once. Qed.
+Print Assumptions C06_local_broadcast_once.
+
+(* C06_announcements_terminate, PARTIAL (loop-free internetworks; the general statement is refuted by
+   C06_cycle_discovery_refuted): an I-Am-Router-To-Network broadcast in flight on LAN L0, sent by member x0, with
+   nothing parked anywhere: the relays stop, no LAN carries more than one copy (NoDup of the LANs of the frames in
+   the trace), and nothing is handed to any application.  Missing for full cold discovery on trees: the
+   Who-Is-Router-To-Network relays and the release of parked packets interleaved with the announcements. *)
+Theorem C06_announcements_terminate_partial : forall w L0 lv up par x0 m0 nets,
+  internet_ok (lans w) (nodes w) -> tree_from (lans w) (nodes w) L0 lv up par ->
+  In x0 (lan_members (lans w) L0) -> port_of (nodes w) x0 = Some (L0, m0) ->
+  Forall (fun d => d < 65536) nets ->
+  (forall who wn, nth_error (nodes w) who = Some wn -> pending (w_node wn) = []) ->
+  queue w = [mkFrame L0 m0 LBcast (i_am nets)] ->
+  exists k osn, queue (run k w) = [] /\ trace (run k w) = osn ++ trace w /\
+                hearers osn = [] /\ NoDup (frame_lans osn).
+Proof. exact announcement_terminates_on_tree. Qed.
+Print Assumptions C06_announcements_terminate_partial.
+
 (* C06_reply_routable is FALSE of the code when the originator is an application on a router: router with ports
    (net 1, net 2), local adapter = net 2, broadcasts globally; the station on net 1 is shown the router's net-1
    address in local form; its reply to that address arrives on the non-local adapter and is handed to nobody. *)
@@ -461,6 +611,237 @@ Proof.
       * vm_compute. repeat constructor; cbn; intuition discriminate.
       * intros x Hx. vm_compute in Hx. destruct Hx as [Hx|[Hx|[Hx|[]]]]; subst x; vm_compute; auto.
   - vm_compute. reflexivity.
+Qed.
+
+Ltac split_lan lan :=
+  repeat match goal with
+  | |- context [N.eqb ?k lan] => destruct (N.eqb_spec k lan); [subst lan|]
+  | H : context [N.eqb ?k lan] |- _ => destruct (N.eqb_spec k lan); [subst lan|]
+  end.
+
+(* the hypotheses of the tree theorems are satisfiable: tree4 is internet_ok and loop-free/warm towards network 4 *)
+Example C06_tree4_internet_ok : internet_ok (lans tree4) (nodes tree4).
+Proof.
+  constructor.
+  - intros lan x Hx. cbn [lans tree4 lan_members] in Hx. split_lan lan; cbn in Hx;
+      repeat (destruct Hx as [Hx|Hx]; [subst x; eexists; reflexivity|]); contradiction.
+  - intros [who p] lan m H. unfold port_of in H. cbn [fst snd nodes tree4] in H.
+    do 7 (destruct who as [|who]; [do 3 (destruct p as [|p]; [cbn in H; inversion H; subst; cbn; auto 6|]); destruct p; discriminate|]).
+    destruct who; discriminate.
+  - intro lan. apply lans_distinctb_sound. reflexivity.
+  - intro lan. cbn [lans tree4 lan_members]. split_lan lan; cbn; repeat constructor; cbn; intuition discriminate.
+  - intros who w H. cbn [nodes tree4] in H.
+    do 7 (destruct who as [|who]; [inversion H; subst;
+      first [left; unfold router_shape; cbn; repeat split; [lia|repeat constructor; cbn; intuition discriminate]
+            |right; unfold station_shape; cbn; do 3 eexists; repeat split; auto]|]).
+    destruct who; discriminate.
+Qed.
+
+Definition lv4 (L : N) : nat := if L =? 4 then 0%nat else if L =? 3 then 1%nat else 2%nat.
+Definition up4 (who : nat) : nat := match who with O => 2%nat | _ => 1%nat end.
+Definition par4 (L : N) : nat * nat := if L =? 3 then (1, 0)%nat else if L =? 1 then (0, 0)%nat else (0, 1)%nat.
+
+Example C06_tree4_tree_to_4 : tree_to (lans tree4) (nodes tree4) 4 lv4 up4 par4.
+Proof.
+  constructor.
+  - reflexivity.
+  - intros who w H Hsh. cbn [nodes tree4] in H.
+    destruct who as [|[|who]].
+    + inversion H; subst. exists 3, [10]. cbn. repeat split; try discriminate.
+      * intros p lp mp Hp Hne. do 3 (destruct p as [|p]; [cbn in Hp; inversion Hp; subst; try reflexivity; try contradiction|]).
+        destruct p; discriminate.
+      * intros _. exists [11]. split; reflexivity.
+    + inversion H; subst. exists 4, [11]. cbn. repeat split; try reflexivity.
+      * intros p lp mp Hp Hne. do 2 (destruct p as [|p]; [cbn in Hp; inversion Hp; subst; try reflexivity; try contradiction|]).
+        destruct p; discriminate.
+      * intro C. contradiction.
+    + exfalso. do 5 (destruct who as [|who]; [inversion H; subst; destruct Hsh as (Hl & _); cbn in Hl; lia|]).
+      destruct who; discriminate.
+  - intros L [[who p] [m Hx]] Hlv. unfold port_of in Hx. cbn [fst snd nodes tree4] in Hx.
+    assert (HL : L = 1 \/ L = 2 \/ L = 3).
+    { do 7 (destruct who as [|who]; [do 3 (destruct p as [|p]; [cbn in Hx; inversion Hx; subst; auto; try (exfalso; apply Hlv; reflexivity)|]); destruct p; discriminate|]).
+      destruct who; discriminate. }
+    destruct HL as [E|[E|E]]; subst L; cbn; (split; [auto 6|]); eexists; (split; [reflexivity|]);
+      (split; [unfold router_shape; cbn; repeat split; [lia|repeat constructor; cbn; intuition discriminate]|discriminate]).
+Qed.
+
+Example C06_tree4_unicast_once :
+  let w0 := submit tree4 2 (ARS 4 [2]) [16; 99; 1] in
+  exists k osn, queue (run k w0) = [] /\ (forall k', (k <= k')%nat -> run k' w0 = run k w0) /\
+                trace (run k w0) = osn ++ trace tree4 /\ oups osn = [OUp 6 (ARS 1 [1]) (ALS [2]) [16; 99; 1]].
+Proof.
+  eapply (tree_unicast_once tree4 4 lv4 up4 par4 2%nat _ 1 [1] _ 6%nat _ [2] _ [16; 99; 1] [10] C06_tree4_internet_ok C06_tree4_tree_to_4);
+    try reflexivity; cbn; auto 6; try lia.
+Qed.
+
+Example C06_tree4_remote_broadcast_once :
+  let w0 := submit tree4 2 (ARB 4) [16; 99; 2] in
+  exists k osn, queue (run k w0) = [] /\ (forall k', (k <= k')%nat -> run k' w0 = run k w0) /\
+                trace (run k w0) = osn ++ trace tree4 /\ hearers osn = [6; 5]%nat.
+Proof.
+  eapply (tree_remote_broadcast_once tree4 4 lv4 up4 par4 2%nat _ 1 [1] _ [16; 99; 2] [10] C06_tree4_internet_ok C06_tree4_tree_to_4);
+    try reflexivity; cbn; auto 6; try lia.
+Qed.
+
+Definition lv1 (L : N) : nat := if L =? 1 then 0%nat else if L =? 4 then 2%nat else 1%nat.
+Definition up1 (who : nat) : nat := 0%nat.
+Definition par1 (L : N) : nat * nat := if L =? 2 then (0, 1)%nat else if L =? 3 then (0, 2)%nat else (1, 1)%nat.
+
+Example C06_tree4_inhabited : forall L x m, port_of (nodes tree4) x = Some (L, m) -> L = 1 \/ L = 2 \/ L = 3 \/ L = 4.
+Proof.
+  intros L [who p] m Hx. unfold port_of in Hx. cbn [fst snd nodes tree4] in Hx.
+  do 7 (destruct who as [|who]; [do 3 (destruct p as [|p]; [cbn in Hx; inversion Hx; subst; auto|]); destruct p; discriminate|]).
+  destruct who; discriminate.
+Qed.
+
+(* tree4 is loop-free as seen from network 1 *)
+Example C06_tree4_tree_from_1 : tree_from (lans tree4) (nodes tree4) 1 lv1 up1 par1.
+Proof.
+  constructor.
+  - reflexivity.
+  - intros L (x & m & Hx) Hlv. destruct (C06_tree4_inhabited _ _ _ Hx) as [E|[E|[E|E]]]; subst L; try reflexivity; discriminate.
+  - intros L (x & m & Hx). destruct (C06_tree4_inhabited _ _ _ Hx) as [E|[E|[E|E]]]; subst L; cbn; lia.
+  - intros who w H Hsh. cbn [nodes tree4] in H.
+    destruct who as [|[|who]].
+    + inversion H; subst. exists 1, [10]. cbn. split; [reflexivity|].
+      intros p lp mp Hp Hne. do 3 (destruct p as [|p]; [cbn in Hp; inversion Hp; subst; try reflexivity; try contradiction|]).
+      destruct p; discriminate.
+    + inversion H; subst. exists 3, [11]. cbn. split; [reflexivity|].
+      intros p lp mp Hp Hne. do 2 (destruct p as [|p]; [cbn in Hp; inversion Hp; subst; try reflexivity; try contradiction|]).
+      destruct p; discriminate.
+    + exfalso. do 5 (destruct who as [|who]; [inversion H; subst; destruct Hsh as (Hl & _); cbn in Hl; lia|]).
+      destruct who; discriminate.
+  - intros L (x & m & Hx) Hlv. destruct (C06_tree4_inhabited _ _ _ Hx) as [E|[E|[E|E]]]; subst L;
+      try (exfalso; apply Hlv; reflexivity); cbn; (split; [auto 6|]); eexists; (split; [reflexivity|]);
+      (split; [unfold router_shape; cbn; repeat split; [lia|repeat constructor; cbn; intuition discriminate]|discriminate]).
+  - intros L [who p] w Hx Hw Hsh Hne. cbn [fst snd] in *. cbn [lans tree4 lan_members] in Hx.
+    assert (who = 0%nat \/ who = 1%nat).
+    { cbn [nodes tree4] in Hw. destruct who as [|[|who]]; auto.
+      exfalso. do 5 (destruct who as [|who]; [inversion Hw; subst; destruct Hsh as (Hl & _); cbn in Hl; lia|]). destruct who; discriminate. }
+    split_lan L; cbn in Hx; repeat (destruct Hx as [Hx|Hx]; [inversion Hx; subst; try reflexivity; try (exfalso; apply Hne; reflexivity); try (destruct H; discriminate)|]); try contradiction.
+Qed.
+
+Example C06_tree4_global_broadcast_once :
+  let w0 := submit tree4 2 AGB [16; 99; 3] in
+  exists k osn, queue (run k w0) = [] /\ (forall k', (k <= k')%nat -> run k' w0 = run k w0) /\
+    trace (run k w0) = osn ++ trace tree4 /\ NoDup (hearers osn) /\
+    forall who, In who (hearers osn) <->
+                (who <> 2%nat /\ exists wn, nth_error (nodes tree4) who = Some wn /\ station_shape wn).
+Proof.
+  eapply (tree_global_broadcast_once tree4 1 lv1 up1 par1 2%nat _ [1] [16; 99; 3] C06_tree4_internet_ok C06_tree4_tree_from_1); try reflexivity.
+  unfold station_shape. cbn. do 3 eexists. repeat split; auto.
+Qed.
+
+(* the four-network tree, cold about network 1: routes towards network 4 only *)
+Definition tree4c : world :=
+  mkWorld
+    [mkW (mkNode [mkAd (Some 1) (Some [10]); mkAd (Some 2) (Some [10]); mkAd (Some 3) (Some [10])] false
+                 [((Some 3, 4), [11])] []) [(1, [10]); (2, [10]); (3, [10])];
+     mkW (mkNode [mkAd (Some 3) (Some [11]); mkAd (Some 4) (Some [11])] false [] []) [(3, [11]); (4, [11])];
+     mkW (mkNode [mkAd (Some 1) (Some [1])] true [((Some 1, 4), [10])] []) [(1, [1])];
+     mkW (mkNode [mkAd (Some 2) (Some [1])] true [] []) [(2, [1])];
+     mkW (mkNode [mkAd None None] true [] []) [(3, [1])];
+     mkW (mkNode [mkAd (Some 4) (Some [1])] true [] []) [(4, [1])];
+     mkW (mkNode [mkAd None (Some [2])] true [] []) [(4, [2])]]
+    [(1, [(0, 0); (2, 0)]%nat); (2, [(0, 1); (3, 0)]%nat); (3, [(0, 2); (1, 0); (4, 0)]%nat);
+     (4, [(1, 1); (5, 0); (6, 0)]%nat)]
+    [] [].
+Example C06_tree4c_internet_ok : internet_ok (lans tree4c) (nodes tree4c).
+Proof.
+  constructor.
+  - intros lan x Hx. cbn [lans tree4c lan_members] in Hx. split_lan lan; cbn in Hx;
+      repeat (destruct Hx as [Hx|Hx]; [subst x; eexists; reflexivity|]); contradiction.
+  - intros [who p] lan m H. unfold port_of in H. cbn [fst snd nodes tree4c] in H.
+    do 7 (destruct who as [|who]; [do 3 (destruct p as [|p]; [cbn in H; inversion H; subst; cbn; auto 6|]); destruct p; discriminate|]).
+    destruct who; discriminate.
+  - intro lan. apply lans_distinctb_sound. reflexivity.
+  - intro lan. cbn [lans tree4c lan_members]. split_lan lan; cbn; repeat constructor; cbn; intuition discriminate.
+  - intros who w H. cbn [nodes tree4c] in H.
+    do 7 (destruct who as [|who]; [inversion H; subst;
+      first [left; unfold router_shape; cbn; repeat split; [lia|repeat constructor; cbn; intuition discriminate]
+            |right; unfold station_shape; cbn; do 3 eexists; repeat split; auto]|]).
+    destruct who; discriminate.
+Qed.
+
+
+Example C06_tree4c_tree_to_4 : tree_to (lans tree4c) (nodes tree4c) 4 lv4 up4 par4.
+Proof.
+  constructor.
+  - reflexivity.
+  - intros who w H Hsh. cbn [nodes tree4c] in H.
+    destruct who as [|[|who]].
+    + inversion H; subst. exists 3, [10]. cbn. repeat split; try discriminate.
+      * intros p lp mp Hp Hne. do 3 (destruct p as [|p]; [cbn in Hp; inversion Hp; subst; try reflexivity; try contradiction|]).
+        destruct p; discriminate.
+      * intros _. exists [11]. split; reflexivity.
+    + inversion H; subst. exists 4, [11]. cbn. repeat split; try reflexivity.
+      * intros p lp mp Hp Hne. do 2 (destruct p as [|p]; [cbn in Hp; inversion Hp; subst; try reflexivity; try contradiction|]).
+        destruct p; discriminate.
+      * intro C. contradiction.
+    + exfalso. do 5 (destruct who as [|who]; [inversion H; subst; destruct Hsh as (Hl & _); cbn in Hl; lia|]).
+      destruct who; discriminate.
+  - intros L [[who p] [m Hx]] Hlv. unfold port_of in Hx. cbn [fst snd nodes tree4c] in Hx.
+    assert (HL : L = 1 \/ L = 2 \/ L = 3).
+    { do 7 (destruct who as [|who]; [do 3 (destruct p as [|p]; [cbn in Hx; inversion Hx; subst; auto; try (exfalso; apply Hlv; reflexivity)|]); destruct p; discriminate|]).
+      destruct who; discriminate. }
+    destruct HL as [E|[E|E]]; subst L; cbn; (split; [auto 6|]); eexists; (split; [reflexivity|]);
+      (split; [unfold router_shape; cbn; repeat split; [lia|repeat constructor; cbn; intuition discriminate]|discriminate]).
+Qed.
+
+
+Example C06_tree4c_round_trip :
+  let w0 := submit tree4c 2 (ARS 4 [2]) [16; 99; 1] in
+  exists k1 osn1,
+    queue (run k1 w0) = [] /\ trace (run k1 w0) = osn1 ++ trace tree4c /\
+    oups osn1 = [OUp 6 (ARS 1 [1]) (ALS [2]) [16; 99; 1]] /\
+    let w2 := submit (run k1 w0) 6 (ARS 1 [1]) [16; 99; 2] in
+    exists k2 osn2,
+      queue (run k2 w2) = [] /\ (forall k', (k2 <= k')%nat -> run k' w2 = run k2 w2) /\
+      trace (run k2 w2) = osn2 ++ trace (run k1 w0) /\
+      oups osn2 = [OUp 2 (ARS 4 [2]) (ALS [1]) [16; 99; 2]].
+Proof.
+  eapply (tree_reply_routable tree4c 4 lv4 up4 par4 2%nat _ 1 [1] _ 6%nat _ [2] _ [16; 99; 1] [16; 99; 2] [10] C06_tree4c_internet_ok C06_tree4c_tree_to_4);
+    try reflexivity; cbn; auto 6; try lia.
+  intros who wn H x.
+  do 7 (destruct who as [|who]; [inversion H; subst; clear H; unfold cache_get, key_eqb; cbn; rewrite ?andb_false_r; reflexivity|]).
+  destruct who; discriminate.
+Qed.
+
+(* the checkers accept the example tree *)
+Example C06_tree4_checkers :
+  internet_okb (lans tree4) (nodes tree4) = true /\
+  tree_tob (lans tree4) (nodes tree4) 4 lv4 up4 par4 = true /\
+  tree_fromb (lans tree4) (nodes tree4) 1 lv1 up1 par1 = true.
+Proof. vm_compute. repeat split. Qed.
+
+Example C06_tree4_local_broadcast_once :
+  let w0 := submit tree4 5 ALB [16; 99; 4] in
+  exists osn, queue (run 1 w0) = [] /\ (forall k', (1 <= k')%nat -> run k' w0 = run 1 w0) /\
+    trace (run 1 w0) = osn ++ trace tree4 /\ NoDup (hearers osn) /\
+    forall who, In who (hearers osn) <->
+      (who <> 5%nat /\ exists wn m, nth_error (nodes tree4) who = Some wn /\ station_shape wn /\ w_ports wn = [(4, m)]).
+Proof.
+  eapply (local_broadcast_once tree4 5%nat _ 4 [1] [16; 99; 4] C06_tree4_internet_ok); try reflexivity.
+  unfold station_shape. cbn. do 3 eexists. repeat split; auto.
+Qed.
+
+(* router R1 of tree4 announces network 4 on network 3: certificate from the checkers, theorem applies *)
+Example C06_tree4_announcement :
+  let w := mkWorld (nodes tree4) (lans tree4) [mkFrame 3 [11] LBcast (i_am [4])] [] in
+  exists k osn, queue (run k w) = [] /\ trace (run k w) = osn ++ trace w /\
+                hearers osn = [] /\ NoDup (frame_lans osn).
+Proof.
+  intro w.
+  set (lv3 := fun L : N => if L =? 3 then 0%nat else 1%nat).
+  set (up3 := fun who : nat => match who with O => 2%nat | _ => 0%nat end).
+  set (par3 := fun L : N => if L =? 1 then (0, 0)%nat else if L =? 2 then (0, 1)%nat else (1, 1)%nat).
+  assert (Hok : internet_okb (lans tree4) (nodes tree4) = true) by (vm_compute; reflexivity).
+  assert (Hfrom : tree_fromb (lans tree4) (nodes tree4) 3 lv3 up3 par3 = true) by (vm_compute; reflexivity).
+  destruct (C06_certificate_checkers_sound _ _ Hok) as (Hio & _ & Hf).
+  eapply (announcement_terminates_on_tree w 3 lv3 up3 par3 (1, 0)%nat [11] [4] Hio (Hf _ _ _ _ Hfrom)); try reflexivity.
+  - cbn. auto.
+  - repeat constructor.
+  - intros who wn H. cbn [nodes] in H. do 7 (destruct who as [|who]; [inversion H; reflexivity|]). destruct who; discriminate.
 Qed.
 
 Example C06_tree_unicast_example :
